@@ -26,7 +26,7 @@ for f in sorted(glob.glob('/verif/seeded/*/meta.json')):
     rows.append((name, m.get('property'), (m.get('summary') or '')[:160].replace('|', '/'), (m.get('needs') or '')[:120].replace('|', '/'),
                  'yes' if c.get('demo_fails_with_patch') and c.get('demo_passes_without_patch') else 'NO',
                  c.get('existing_tests', 'n/a (no tests in the touched package)'), ', '.join(caught) if caught else 'MISSED',
-                 ('caught' if first.get(name) else 'missed, check strengthened') if name in first else '', det))
+                 ('caught' if first.get(name) else ('missed, check strengthened' if caught else 'missed (see DESIGN 11.3)')) if name in first else '', det))
 with open('/verif/seeded/SUMMARY.md', 'w') as w:
     w.write('# Independently seeded changes\n\n')
     w.write('%d changes; caught by the quick tier: %d; missed: %d\n\n' % (len(rows), sum(1 for r in rows if r[6] != 'MISSED'), sum(1 for r in rows if r[6] == 'MISSED')))
